@@ -8,6 +8,7 @@ HENV = dict(C.ASAN_ENV, ASAN_OPTIONS=C.ASAN_ENV["ASAN_OPTIONS"] + ":soft_rss_lim
 GNU = ["prlimit", "--as=2147483648", "sed", "--posix"] if shutil.which("prlimit") else ["sed", "--posix"]
 FUEL = 3000          # command steps per cycle granted to the model
 T_RUN = 10           # seconds, normal case
+MAX_HANGS = 12       # unexpected hangs of hawk-sed after which a batch is cut short
 T_LOOP = 2           # seconds, cases the model reports as out of fuel (expected to diverge)
 
 # --------------------------------------------------------------------------------------------
@@ -27,9 +28,13 @@ def cmd(op, a1=None, a2=None, neg=False, **kw):
     return d
 
 
-def esc_re(r):
-    """regex source as written between slashes ('/' and newline escaped)"""
-    return r.replace("/", "\\/").replace("\n", "\\n")
+ESC = {"t": "\t", "f": "\f", "a": "\a", "v": "\v"}          # escapes trans_escaped() knows besides \n (and \r, \xHH)
+UNESC = dict((v, k) for k, v in ESC.items())
+
+
+def esc_re(r, d="/"):
+    """regex source as written between delimiters `d` (delimiter and newline escaped)"""
+    return r.replace(d, "\\" + d).replace("\n", "\\n")
 
 
 def re_compiled(r):
@@ -39,6 +44,8 @@ def re_compiled(r):
         if r[i] == "\\" and i + 1 < len(r):
             if r[i + 1] == "n":
                 out.append("\n")
+            elif r[i + 1] in ESC:
+                out.append(ESC[r[i + 1]])
             else:
                 out.append(r[i:i + 2])
             i += 2
@@ -47,22 +54,26 @@ def re_compiled(r):
     return "".join(out)
 
 
-def render_addr(a):
+def render_addr(a, d="/"):
     if a is None:
         return ""
     if a[0] == "L":
         return str(a[1])
     if a[0] == "$":
         return "$"
+    if d != "/" and d not in a[1]:
+        return "\\" + d + esc_re(a[1], d) + d          # \cREGEXc
     return "/" + esc_re(a[1]) + "/"
 
 
-def render_rpl(pieces):
+def render_rpl(pieces, d="/"):
     s = ""
     for p in pieces:
         if p[0] == "lit":
             ch = p[1]
-            s += {"/": "\\/", "&": "\\&", "\\": "\\\\", "\n": "\\\n"}.get(ch, ch)
+            s += {d: "\\" + d, "&": "\\&", "\\": "\\\\", "\n": "\\\n"}.get(ch, ch)
+        elif p[0] == "esc":
+            s += "\\" + p[1]
         elif p[0] == "amp":
             s += "&"
         elif p[0] == "grp":
@@ -85,6 +96,8 @@ def rpl_compiled(pieces):
             s += "&"
         elif p[0] == "grp":
             s += "\\%d" % p[1]
+        elif p[0] == "esc":
+            s += ESC[p[1]]
         else:
             s += "\n"
     return s
@@ -96,18 +109,29 @@ def render_text(t):
     return body.replace("\\", "\\\\").replace("\n", "\\\n") + "\n"
 
 
-def y_esc(s):
-    return "".join({"/": "\\/", "\\": "\\\\", "\n": "\\n"}.get(ch, ch) for ch in s)
+def y_esc(s, d="/"):
+    m = {d: "\\" + d, "\\": "\\\\", "\n": "\\n"}
+    m.update(("%s" % ch, "\\" + k) for ch, k in UNESC.items())
+    return "".join(m.get(ch, ch) for ch in s)
 
 
 def render_cmd(c, sep):
-    """returns the command text including its terminator"""
-    pre = render_addr(c["a1"])
+    """returns the command text including its terminator.  Optional per-command syntax variation:
+    c["ws"] = (before the address, between address and command, after `!`), c["adelim"] = regex address delimiter,
+    c["delim"] = s / y delimiter, c["cmt"] = a trailing comment (simple commands, s, y)"""
+    ws = c.get("ws") or ("", "", "")
+    ad = c.get("adelim") or "/"
+    pre = ws[0] + render_addr(c["a1"], ad)
     if c["a2"] is not None:
-        pre += "," + render_addr(c["a2"])
+        pre += (" , " if ws[1] else ",") + render_addr(c["a2"], ad)
+    if c["a1"] is not None:
+        pre += ws[1]
     if c["neg"]:
-        pre += "!"
+        pre += "!" + ws[2]
     op = c["op"]
+    d = c.get("delim") or "/"
+    if c.get("cmt") and sep == "\n" and (op in SIMPLE or (op in "sy" and c.get("w") is None)):
+        sep = " # " + c["cmt"] + "\n"
     if op == "lab":
         return ":" + c["name"] + "\n"
     if op in ("{",):
@@ -120,24 +144,50 @@ def render_cmd(c, sep):
         return pre + op + "\\\n" + render_text(c["text"])
     if op == "w":
         return pre + "w " + c["file"] + "\n"
+    if op == "r":
+        return pre + "r " + c["file"] + "\n"
     if op == "s":
         fl = ("g" if c["g"] else "") + (str(c["occ"]) if c["occ"] else "") + ("p" if c["p"] else "")
         if c["w"] is not None:
-            return pre + "s/%s/%s/%sw %s\n" % (esc_re(c["re"]), render_rpl(c["rpl"]), fl, c["w"])
-        return pre + "s/%s/%s/%s%s" % (esc_re(c["re"]), render_rpl(c["rpl"]), fl, sep)
+            return pre + "s%s%s%s%s%s%sw %s\n" % (d, esc_re(c["re"], d), d, render_rpl(c["rpl"], d), d, fl, c["w"])
+        return pre + "s%s%s%s%s%s%s%s" % (d, esc_re(c["re"], d), d, render_rpl(c["rpl"], d), d, fl, sep)
     if op == "y":
-        return pre + "y/%s/%s/%s" % (y_esc(c["src"]), y_esc(c["dst"]), sep)
+        return pre + "y%s%s%s%s%s%s" % (d, y_esc(c["src"], d), d, y_esc(c["dst"], d), d, sep)
     return pre + op + sep
 
 
-def render_script(cmds, seps=None):
-    out = ""
+def render_parts(cmds, seps=None, extra=None):
+    """one text per command (terminator included); extra[i] = comment / empty lines written before command i"""
+    out = []
     for i, c in enumerate(cmds):
         sep = "\n"
         if seps and seps[i] == ";" and i + 1 < len(cmds) and cmds[i + 1]["op"] != "}":
             sep = ";"
-        out += render_cmd(c, sep)
+        out.append(((extra or {}).get(i) or (extra or {}).get(str(i)) or "") + render_cmd(c, sep))
     return out
+
+
+def render_script(cmds, seps=None, extra=None):
+    return "".join(render_parts(cmds, seps, extra))
+
+
+def script_fragments(case):
+    """the script as the list of fragments given to the seds: one, or several (-e/-f fragments are joined by newlines,
+    so a cut between two commands changes nothing)"""
+    parts = render_parts(case["cmds"], case.get("seps"), case.get("extra"))
+    cuts = [c for c in (case.get("frags") or []) if 0 < c < len(parts)]
+    if not cuts:
+        return ["".join(parts)]
+    frs, prev = [], 0
+    for c in sorted(set(cuts)) + [len(parts)]:
+        fr = "".join(parts[prev:c])
+        if fr.endswith(";"):
+            fr = fr[:-1] + "\n"
+        frs.append(fr)
+        prev = c
+    return frs
+
+RFILES = {"rf": "R1\nR2\n", "re": "", "r1": "one\n", "rn": None}          # rn does not exist
 
 
 def enc(s):
@@ -169,6 +219,8 @@ def enc_cmd(c):
         f += [op, enc(c["text"])]
     elif op == "w":
         f += ["w", enc(c["file"])]
+    elif op == "r":
+        f += ["r", enc(c["file"]), "-" if RFILES.get(c["file"]) is None else enc(RFILES[c["file"]])]
     elif op == "s":
         f += ["s", enc(re_compiled(c["re"])), enc(rpl_compiled(c["rpl"])), "1" if c["g"] else "0", str(c["occ"] or 0),
               "1" if c["p"] else "0", "-" if c["w"] is None else enc(c["w"])]
@@ -209,7 +261,22 @@ def wfiles_of(case):
     return fs
 
 
-def run_sed(argv0, case, script, workdir, timeout, env):
+def split_input(text, k):
+    """the input as k files cut at line boundaries (only the last one may lack the final newline; files may be empty)"""
+    lines = text.split("\n")
+    lines = [l + "\n" for l in lines[:-1]] + ([lines[-1]] if lines[-1] else [])
+    n = len(lines)
+    cuts = [(n * (i + 1)) // k for i in range(k)]
+    if k >= 3 and n >= 1:
+        cuts[0] = cuts[1]            # an empty file in front of / between the others
+    out, prev = [], 0
+    for c in cuts:
+        out.append("".join(lines[prev:c]))
+        prev = max(prev, c)
+    return out
+
+
+def run_sed(argv0, case, frags, workdir, timeout, env):
     os.makedirs(workdir, exist_ok=True)
     wf = wfiles_of(case)
     for f in ("w1", "w2"):
@@ -217,25 +284,36 @@ def run_sed(argv0, case, script, workdir, timeout, env):
             os.unlink(os.path.join(workdir, f))
         except OSError:
             pass
+    if any(c["op"] == "r" for c in case["cmds"]) and not os.path.exists(os.path.join(workdir, "rf")):
+        for name, content in RFILES.items():
+            if content is not None:
+                with open(os.path.join(workdir, name), "w") as fh:
+                    fh.write(content)
     args = argv0 + (["-n"] if case["n"] else [])
-    if case.get("via_f"):
-        # the script is delivered through a script file (-f) instead of the command line
-        with open(os.path.join(workdir, "script.sed"), "wb") as fh:
-            fh.write(script.encode("utf-8"))
-        args += ["-f", "script.sed"]
-    else:
-        args += ["-e", script]
+    ff = case.get("frag_f") or []
+    for i, fr in enumerate(frags):
+        if case.get("via_f") or i in ff:
+            # the script (or this fragment of it) is delivered through a script file (-f) instead of the command line
+            with open(os.path.join(workdir, "script%d.sed" % i), "wb") as fh:
+                fh.write(fr.encode("utf-8"))
+            args += ["-f", "script%d.sed" % i]
+        else:
+            args += ["-e", fr]
     data = case["input"].encode("utf-8")
-    if case.get("in_file"):
-        # the input is delivered as a file operand instead of stdin
-        with open(os.path.join(workdir, "input.txt"), "wb") as fh:
-            fh.write(data)
-        args += ["input.txt"]
+    nfiles = case.get("nfiles") or (1 if case.get("in_file") else 0)
+    if nfiles:
+        # the input is delivered as file operand(s) instead of stdin
+        if case.get("dashdash"):
+            args += ["--"]
+        for i, chunk in enumerate(split_input(case["input"], nfiles)):
+            with open(os.path.join(workdir, "input%d.txt" % i), "wb") as fh:
+                fh.write(chunk.encode("utf-8"))
+            args += ["input%d.txt" % i]
         data = b""
     rc, out, err = C.sh(args, timeout=timeout, cwd=workdir, input_=data, env=env)
     files = {}
     for f in (os.listdir(workdir) if wf else []):
-        if f in ("script.sed", "input.txt"):
+        if f.startswith(("script", "input")) or f in RFILES:
             continue
         try:
             files[f] = open(os.path.join(workdir, f), "rb").read().decode("utf-8", "replace")
@@ -253,14 +331,21 @@ def run_three(ctx, hawksed, cases, model=None, tag="w"):
         raise RuntimeError("driver returned %d lines for %d cases" % (len(model), len(cases)))
     genv = dict(os.environ, LC_ALL="C.UTF-8")
 
+    hangs = [0]
+
     def one(i):
         case = cases[i]
-        script = case.get("script") or render_script(case["cmds"], case.get("seps"))
+        if hangs[0] >= MAX_HANGS:
+            return None          # a tree on which hawk-sed hangs again and again: the hangs seen are reported, stop paying for more
+        frags = script_fragments(case)
+        script = "\n".join(fr[:-1] if fr.endswith("\n") else fr for fr in frags) + "\n"
         t = T_LOOP if model[i]["status"] == "fuel" else T_RUN
         wd = os.path.join(ctx.scratch, "%s%d" % (tag, threading.get_ident()))
-        h = run_sed([hawksed], case, script, wd + "h", t, HENV)
-        g = run_sed(GNU, case, script, wd + "g", t, genv)
-        return dict(case=case, script=script, model=model[i], hawk=h, gnu=g)
+        h = run_sed([hawksed], case, frags, wd + "h", t, HENV)
+        if h[0] == -9 and model[i]["status"] != "fuel":
+            hangs[0] += 1
+        g = run_sed(GNU, case, frags, wd + "g", t, genv)
+        return dict(case=case, script=script, frags=frags, model=model[i], hawk=h, gnu=g)
     if len(cases) == 1:
         return [one(0)]
     with cf.ThreadPoolExecutor(max_workers=12) as ex:
@@ -281,7 +366,9 @@ def status_class(rc, err):
 # --------------------------------------------------------------------------------------------
 RE_POOL = ["a", "b", "ab", ".", "a*", "b*", "^a", "a$", "^", "$", "[ab]", "[^a]", "a.", "^$", "x", "ba*",
            "\\(a\\)", "\\(a*\\)b", "\\(.\\)\\(.\\)", "a\\nb", "\\n", "é", "^b*$", ".*", "[^b]*", "b$", "^.", ".$"]
+RE_ESC_POOL = ["\\t", "\\f", "a\\tb", "\\t*", "[ab]\\f", "^\\t", "\\v", "\\a$"]      # \t \f \v \a as trans_escaped() reads them
 TEXTS = ["X\n", "Y Z\n", "é\n", "X\nY\n", "p\\q\n", "  T\n", "-\n"]
+CTL_CH = "\t\t\f\a\v\bab"
 LINE_CH = "aabb" + "abc x" + "é世"
 LABELS = ["a", "b", "L1", "end"]
 
@@ -291,6 +378,7 @@ def gen_input(rng, profile=None):
     if profile in ("flag", "hold"):
         n = rng.choice([1, 2, 2, 3, 3, 4, 5])
     lines = []
+    ctl = profile is None and rng.random() < 0.12          # lines with control characters (tab, form feed, bell ...)
     for _ in range(n):
         k = rng.choice([0, 1, 1, 2, 2, 3, 4])
         if profile == "hold":
@@ -300,6 +388,8 @@ def gen_input(rng, profile=None):
         pool = LINE_CH if rng.random() < 0.25 else "aabbc"
         if profile == "flag":
             pool = "aab"
+        elif ctl:
+            pool = CTL_CH
         lines.append("".join(rng.choice(pool) for _ in range(k)))
     s = "\n".join(lines)
     p_term = 0.4 if profile == "hold" else 0.75
@@ -311,6 +401,8 @@ def gen_input(rng, profile=None):
 def gen_re(rng, allow_empty):
     if allow_empty and rng.random() < 0.06:
         return ""
+    if rng.random() < 0.07:
+        return rng.choice(RE_ESC_POOL)
     return rng.choice(RE_POOL)
 
 
@@ -347,6 +439,8 @@ def gen_rpl(rng, re_):
             pieces.append(("grp", rng.randrange(1, re_.count("\\(") + 1)))
         elif k < 0.84:
             pieces.append(("lit", rng.choice("&\\/")))
+        elif k < 0.87:
+            pieces.append(("esc", rng.choice("tfav")))
         elif k < 0.90:
             pieces.append(("bsn",))
         elif k < 0.94:
@@ -408,12 +502,15 @@ def gen_simple_cmd(rng, st):
         w = rng.choice(["w1", "w2"]) if rng.random() < 0.05 else None
         return cmd("s", a1, a2, neg, re=r, rpl=gen_rpl(rng, r), g=g, occ=occ, p=rng.random() < 0.2, w=w)
     if k < 0.29:
-        pairs = rng.choice([("ab", "xy"), ("a", "b"), ("ab", "ba"), ("a\n", "-+"), ("bé", "é-"), ("a/\\", "123"), ("abc", "b\nc")])
+        pairs = rng.choice([("ab", "xy"), ("a", "b"), ("ab", "ba"), ("a\n", "-+"), ("bé", "é-"), ("a/\\", "123"), ("abc", "b\nc"),
+                            ("\tb", "T\f"), ("a\f\v", "\tyz"), ("\a,|", "xyz")])
         return cmd("y", a1, a2, neg, src=pairs[0], dst=pairs[1])
     if k < 0.41:
         op = rng.choice("aic")
         return cmd(op, a1, a2 if op == "c" else None, neg, text=rng.choice(TEXTS))
     if k < 0.44:
+        if rng.random() < 0.5:
+            return cmd("r", a1, None, neg, file=rng.choice(["rf", "rf", "r1", "re", "rn"]))
         return cmd("w", a1, a2, neg, file=rng.choice(["w1", "w2"]))
     if k < 0.47:
         return cmd("q", a1 if a1 else gen_addr1(rng, st), None, False)
@@ -485,6 +582,8 @@ def gen_case(rng):
     elif profile == "long":
         st["dominant"] = rng.choice(["a", "a", "i", "p", "s", "=", "w", "G", "H"])
         ncmd = rng.randrange(8, 14) if st["dominant"] in "GH" else rng.randrange(17, 60)
+        if st["dominant"] not in "GH" and rng.random() < 0.15:
+            ncmd = rng.randrange(250, 300)          # more than one command block (256 commands each)
     if profile == "flag":
         # one or two `t` probes: some flag-relevant commands, then `t L`, commands with a visible effect, `:L`
         cmds = []
@@ -516,8 +615,55 @@ def gen_case(rng):
     else:
         cmds = gen_body(rng, st, ncmd, 0)
     seps = [";" if rng.random() < 0.3 and (c["op"] in SIMPLE or (c["op"] in "sy" and c.get("w") is None)) else "\n" for c in cmds]
-    return dict(n=rng.random() < (0.15 if profile else 0.3), input=gen_input(rng, profile), cmds=cmds, seps=seps,
+    case = dict(n=rng.random() < (0.15 if profile else 0.3), input=gen_input(rng, profile), cmds=cmds, seps=seps,
                 via_f=rng.random() < 0.25, in_file=rng.random() < 0.15, profile=profile)
+    if rng.random() < 0.45:
+        case = stylize(rng, case)
+    return case
+
+
+def stylize(rng, case):
+    """syntax and delivery variation that must not change the meaning (the model gets the same structure):
+    other regex / s / y delimiters, blanks around addresses, `!` and commands, comment and empty lines, trailing
+    comments, `;;`, the script cut into several -e / -f fragments, the input cut into several file operands, `--`."""
+    cmds = [dict(c) for c in case["cmds"]]
+    used = "".join(str(v) for c in cmds for k, v in c.items() if k in ("re", "rpl", "src", "dst", "a1", "a2"))
+    for c in cmds:
+        if rng.random() < 0.3 and c["op"] not in ("lab", "}"):
+            c["ws"] = (rng.choice(["", " ", "  ", "\t"]), rng.choice(["", " ", "  "]) if c["a1"] is not None else "", rng.choice(["", " ", "  "]))
+        if rng.random() < 0.3:
+            d = rng.choice(",|%")
+            if d not in used:
+                c["adelim"] = d
+        if c["op"] in "sy" and rng.random() < 0.35:
+            d = rng.choice(",|%:")
+            if d not in used:
+                c["delim"] = d
+        if rng.random() < 0.12:
+            c["cmt"] = rng.choice(["c", "p;d", "a\\", "{", "n x"])
+    extra = {}
+    for i in range(len(cmds)):
+        if rng.random() < 0.12:
+            extra[i] = rng.choice(["# note\n", "\n", "  \n", ";\n", "#\n", " # s/a/b/\n", "#n x\n"])
+    if 0 in extra and extra[0].startswith("#n"):
+        del extra[0]            # "#n" as the first two characters of a script means -n (POSIX); hawk-sed has no such rule
+    case = dict(case, cmds=cmds, extra=extra)
+    if len(cmds) >= 2 and rng.random() < 0.4:
+        case["frags"] = sorted(set(rng.randrange(1, len(cmds)) for _ in range(rng.choice([1, 1, 2, 3]))))
+        # a fragment must not end inside a command: a/i/c/r/w/b/t/labels end with their own newline, fine anywhere
+        case["frag_f"] = [i for i in range(len(case["frags"]) + 1) if rng.random() < 0.3]
+    if rng.random() < 0.3:
+        case["nfiles"] = rng.choice([2, 2, 3, 4])
+        case["dashdash"] = rng.random() < 0.3
+    return case
+
+
+def buffer_triples():
+    """every 3-command sequence over the buffer commands D G H N P x h g (one cycle structure each), on one input"""
+    import itertools
+    ops = ["D", "G", "H", "N", "P", "x", "h", "g"]
+    return [dict(n=False, input="a\nb\nab\n" if (i % 3) else "ab\nb\na", cmds=[cmd(o) for o in seq], seps=None)
+            for i, seq in enumerate(itertools.product(ops, repeat=3))]
 
 
 def flag_probes(quick):
@@ -556,6 +702,7 @@ def atom_cmds():
         cmd("y", src="ab", dst="ba"), cmd("a", text="A\n"), cmd("i", L(2), text="I\n"), cmd("c", L(2), L(3), text="C\n"),
         cmd("p", L(2), L(3)), cmd("p", R("a"), R("b")), cmd("d", R("b"), L(2), True), cmd("t"), cmd("b"), cmd("p", L(3), L(1)),
         S(".*", lit("")), S("a", lit(""), a1=("$",)), cmd("G", ("$",)), cmd("x", ("$",)),
+        cmd("c", L(2), L(3), True, text="N\n"), cmd("r", L(2), file="rf"), cmd("w", file="w1"),
     ]
 
 
@@ -569,6 +716,7 @@ UNSPEC_TEXT = {
     "4": "unterminated last line emptied or made to end in a newline by s/y (indistinguishable from a terminated line in hawk-sed's buffers); judged all the same whenever GNU sed and the reference executor agree",
     "5": "q while the output ends in the unterminated last line (GNU sed appends the missing newline when quitting)",
     "6": "a two-address command evaluated twice on the same input line (D restart / backward branch): GNU never re-opens a numeric-addr1 range and checks `$` differently",
+    "r": "r on an input whose last line is unterminated (GNU sed supplies the missing newline even when the file read is empty or missing)",
     "g": "s with both N and g flags (POSIX: unspecified)",
     "m": "s with a regex that can match the empty string on text with multibyte characters (GNU sed 4.9 steps over empty matches bytewise and splits the character)",
 }
@@ -608,6 +756,8 @@ def static_unspec(case):
         text += c.get("text", "") + c.get("dst", "") + "".join(p[1] for p in c.get("rpl", []) if p[0] == "lit")
     if any(ord(ch) > 127 for ch in text) and any(c["op"] == "s" and nullable(c["re"]) for c in case["cmds"]):
         marks += "m"
+    if case["input"] and not case["input"].endswith("\n") and any(c["op"] == "r" for c in case["cmds"]):
+        marks += "r"
     return marks
 
 
@@ -705,18 +855,24 @@ def case_text(r, why):
         t += "# %-5s rc=%s stdout=%r files=%r stderr=%r\n" % (name, rc, out[:400], files, err[:300])
     m = r["model"]
     t += "# model status=%s stdout=%r files=%r unspec=%r\n" % (m["status"], m["out"][:400], m["files"], m["unspec"])
-    t += "# delivery: script %s, input %s\n" % ("-f FILE" if case.get("via_f") else "-e", "file operand" if case.get("in_file") else "stdin")
+    t += "# delivery: script %s%s, input %s\n" % (
+        "-f FILE" if case.get("via_f") else "-e",
+        " in %d fragments (as -f: %s)" % (len(r.get("frags", [])), case.get("frag_f")) if len(r.get("frags", [])) > 1 else "",
+        "%d file operand(s)%s" % (case.get("nfiles") or 1, " after --" if case.get("dashdash") else "") if (case.get("in_file") or case.get("nfiles")) else "stdin")
     t += "CASE " + json.dumps(dict(n=case["n"], input=case["input"], cmds=case["cmds"], seps=case.get("seps"),
-                                   via_f=bool(case.get("via_f")), in_file=bool(case.get("in_file")))) + "\n"
+                                   via_f=bool(case.get("via_f")), in_file=bool(case.get("in_file")), extra=case.get("extra"),
+                                   frags=case.get("frags"), frag_f=case.get("frag_f"), nfiles=case.get("nfiles"),
+                                   dashdash=bool(case.get("dashdash")))) + "\n"
     return t
 
 
-def shrink(ctx, hawksed, r, pred):
+def shrink(ctx, hawksed, r, pred, cheap=False):
     """ddmin over commands, then over input lines, keeping `pred(result)` true"""
     case = r["case"]
 
     def run1(cmds, inp):
-        c = dict(n=case["n"], input=inp, cmds=cmds, seps=None, via_f=case.get("via_f"), in_file=case.get("in_file"))
+        c = dict(n=case["n"], input=inp, cmds=cmds, seps=None, via_f=case.get("via_f"), in_file=case.get("in_file"),
+                 nfiles=case.get("nfiles"), dashdash=case.get("dashdash"))
         try:
             return run_three(ctx, hawksed, [c], tag="s")[0]
         except Exception:
@@ -725,7 +881,7 @@ def shrink(ctx, hawksed, r, pred):
     def fails_cmds(sub):
         rr = run1(sub, case["input"])
         return rr is not None and rr["model"]["status"] != "comperr" and pred(rr) is not None
-    cmds = C.ddmin(case["cmds"], fails_cmds, max_tests=30)
+    cmds = C.ddmin(case["cmds"], fails_cmds, max_tests=6 if cheap else 30)
     if not fails_cmds(cmds):
         cmds = case["cmds"]
     lines = case["input"].split("\n")
@@ -740,7 +896,7 @@ def shrink(ctx, hawksed, r, pred):
         rr = run1(cmds, join(sub))
         return rr is not None and pred(rr) is not None
     if len(lines) > 1:
-        ls = C.ddmin(lines, fails_in, max_tests=20)
+        ls = C.ddmin(lines, fails_in, max_tests=4 if cheap else 20)
         if fails_in(ls):
             lines = ls
     rr = run1(cmds, join(lines))
@@ -754,7 +910,9 @@ def shrink(ctx, hawksed, r, pred):
 # --------------------------------------------------------------------------------------------
 MUT_ALPHA = [b"\\", b"/", b"{", b"}", b"!", b";", b",", b"$", b"\n", b"0", b"1", b"9", b"&", b"*", b"[", b"]", b"^", b"~",
              b"+", b":", b" ", b"a", b"b", b"s", b"y", b"g", b"p", b"N", b"D", b"c", b"i", b"t", b"\\(", b"\\)", b"\\{", b"\\}",
-             b"\\1", b"\\9", b"#", b"=", b"l", b"x", b"\xc3\xa9", b"\xff", b"\xc3", b"99999999999999999999", b"\\n", b"\\\n", b"I", b"k", b"C", b"z", b"Q"]
+             b"\\1", b"\\9", b"#", b"=", b"l", b"x", b"\xc3\xa9", b"\xff", b"\xc3", b"99999999999999999999", b"\\n", b"\\\n", b"I", b"k", b"C", b"z", b"Q",
+             b"[[:alpha:]]", b"[]a]", b"[^]a]", b"[a-", b"\\x41", b"\\x2", b"\\X00e9", b"~2", b",+1", b",~2", b"0,/a/", b"0~3", b"\\{1,2\\}", b"\\(", b"|",
+             b"C/f1,c2-3/", b"Cd:", b"\\t", b"\\f", b"q5", b"l 3", b"}", b"{{{{", b"#n\n"]
 
 
 def mutate(rng, s):
@@ -786,12 +944,20 @@ def safety_half(ctx, hawksed, seeds, n):
     jobs = []
     for i in range(n):
         s = rng.choice(seeds)
-        jobs.append((mutate(rng, s), rng.choice(inputs), rng.random() < 0.3, rng.random() < 0.1, rng.random() < 0.25))
+        # other command-line options of hawk-sed (extended regex / addresses, strict mode, same-line text, a memory
+        # limit = the xma allocator with failing allocations, separate files, an output file): outcome class only
+        ext = rng.choice([[]] * 12 + [[b"-r"], [b"-r"], [b"-R"], [b"-a"], [b"-b"], [b"-b"], [b"-x"], [b"-y"], [b"-w"], [b"-r", b"-b", b"-x"],
+                                      [b"-m", b"300000"], [b"-m", b"1000000"], [b"-o", b"out.txt"], [b"-s"]])
+        jobs.append((mutate(rng, s), rng.choice(inputs), rng.random() < 0.3, ext, rng.random() < 0.25))
     wd = os.path.join(ctx.scratch, "mut")
     os.makedirs(wd, exist_ok=True)
 
+    nhang = [0]
+
     def one(j):
         script, inp, quiet, ext, via_f = j
+        if nhang[0] >= 4 * MAX_HANGS + n // 500:
+            return "skipped", ""          # mutants may loop legitimately (`:a;ba`), but not that often
         if via_f:
             fn = "m%d.sed" % threading.get_ident()
             with open(os.path.join(wd, fn), "wb") as fh:
@@ -799,13 +965,16 @@ def safety_half(ctx, hawksed, seeds, n):
             deliver = [b"-f", fn.encode()]
         else:
             deliver = [b"-e", script]
-        args = [hawksed.encode()] + ([b"-n"] if quiet else []) + ([b"-r"] if ext else []) + deliver
+        args = [hawksed.encode()] + ([b"-n"] if quiet else []) + list(ext) + deliver
         rc, out, err = C.sh(args, timeout=T_RUN, cwd=wd, input_=inp, env=HENV)
+        nhang[0] += rc == -9
         return status_class(rc, err.decode("utf-8", "replace")), err.decode("utf-8", "replace")
     classes = {}
     bad = None
     with cf.ThreadPoolExecutor(max_workers=12) as ex:
         for j, (cl, err) in zip(jobs, ex.map(one, jobs)):
+            if cl == "skipped":
+                continue
             classes[cl] = classes.get(cl, 0) + 1
             if (cl in ("ASAN", "UBSAN") or cl.startswith("SIGNAL")) and bad is None:
                 bad = (j, cl, err)
@@ -820,7 +989,7 @@ def safety_half(ctx, hawksed, seeds, n):
             small = script
         ctx.problem("impl", "hawk-sed ends with %s on a (mutated) script: %r" % (cl, small[:120]),
                     "# hawk-sed %s%s%s <script> ; stdin = %r\nSCRIPT-BYTES %s\n# stderr:\n%s\n" % (
-                        "-n " if quiet else "", "-r " if ext else "", "-f" if via_f else "-e", inp, json.dumps(list(small)), err[-2500:]),
+                        "-n " if quiet else "", (b" ".join(ext).decode() + " ") if ext else "", "-f" if via_f else "-e", inp, json.dumps(list(small)), err[-2500:]),
                     found_input=True)
     return classes
 
@@ -828,6 +997,44 @@ def safety_half(ctx, hawksed, seeds, n):
 # --------------------------------------------------------------------------------------------
 # mod-sed: the same engine reached through hawk's sed::str_to_str
 # --------------------------------------------------------------------------------------------
+def modsed_files(ctx, libdir, cases):
+    """sed::file_to_file(script, infile, outfile): the engine through hawk_sed_compstdoocstr / hawk_sed_execstdfile;
+    the output file must equal the hawk-sed CLI's stdout for the same case"""
+    hawk = os.path.join(libdir, "hawk")
+    wd = os.path.join(ctx.scratch, "modf")
+    os.makedirs(wd, exist_ok=True)
+    n = 0
+    for r in cases:
+        case = r["case"]
+        if case["n"] or wfiles_of(case) or obs(*r["hawk"])[0] != "ok" or "\\" in r["script"] or '"' in r["script"] or any(c["op"] == "r" for c in case["cmds"]):
+            continue
+        if any(ord(ch) > 127 or ord(ch) < 32 and ch != "\n" for ch in r["script"]):
+            continue
+        with open(os.path.join(wd, "in.txt"), "wb") as fh:
+            fh.write(case["input"].encode("utf-8"))
+        try:
+            os.unlink(os.path.join(wd, "out.txt"))
+        except OSError:
+            pass
+        qs = '"' + r["script"].replace("\n", "\\n") + '"'
+        prog = 'BEGIN { x = sed::file_to_file(%s, "in.txt", "out.txt"); if (x <= -1) print "ERR"; }' % qs
+        rc, out, err = C.sh([hawk, prog], timeout=T_RUN, env=C.ASAN_ENV, cwd=wd)
+        n += 1
+        st = C.classify_rc(rc, err.decode("utf-8", "replace"))
+        try:
+            got = open(os.path.join(wd, "out.txt"), "rb").read().decode("utf-8", "replace")
+        except OSError:
+            got = "<no output file>"
+        if st != "ok" or got != r["hawk"][1] or out:
+            ctx.problem("impl", "sed::file_to_file disagrees with the hawk-sed CLI (%s): %r vs %r" % (st, (out.decode("utf-8", "replace") + got)[:150], r["hawk"][1][:150]),
+                        "# cd <dir with in.txt = the input>; hawk '<prog>'\n" + prog + "\n" + case_text(r, "sed::file_to_file vs hawk-sed CLI") + err.decode("utf-8", "replace")[-1500:],
+                        found_input=True)
+            break
+        if n >= 25:
+            break
+    return n
+
+
 def modsed_half(ctx, libdir, cases):
     """scripts without w-files / -n through `hawk 'BEGIN { sed::str_to_str(script, input, out); printf "%s", out }'`;
     must equal the hawk-sed CLI result of the same case (same engine, other front end)."""
@@ -835,7 +1042,7 @@ def modsed_half(ctx, libdir, cases):
     n = 0
     for r in cases:
         case = r["case"]
-        if case["n"] or wfiles_of(case) or obs(*r["hawk"])[0] != "ok" or "\\" in r["script"] or '"' in r["script"]:
+        if case["n"] or wfiles_of(case) or obs(*r["hawk"])[0] != "ok" or "\\" in r["script"] or '"' in r["script"] or any(c["op"] == "r" for c in case["cmds"]):
             continue
         if any(ord(ch) > 127 for ch in r["script"] + case["input"]):
             continue
@@ -926,21 +1133,28 @@ def run(ctx):
             for k, inp in enumerate(ex_inputs):
                 cases.append(dict(n=False, input=inp, cmds=[x, y], seps=None))
     cases += flag_probes(quick)
-    for idx, c in enumerate(cases[ncorpus:]):
+    cases += buffer_triples()
+    for idx in range(ncorpus, len(cases)):
         # delivery dimensions spread over the exhaustive part
+        c = cases[idx]
         c["via_f"] = idx % 4 == 0
         c["in_file"] = idx % 7 == 0
+        if idx % 5 == 0:
+            cases[idx] = stylize(rng, c)
     nex = len(cases) - ncorpus
     if not quick:
         for _ in range(8000):
             cases.append(dict(n=rng.random() < 0.3, input=rng.choice(ex_inputs + ["a\n", "b\na\nb\na\nb\n"]),
                               cmds=[rng.choice(atoms) for _ in range(3)], seps=None))
-    nrand = 1500 if quick else 50000
+    nrand = 1300 if quick else 40000
     for _ in range(nrand):
         cases.append(gen_case(rng))
     t1 = time.time()
     res = run_three(ctx, hawksed, cases)
-    ctx.log("ran %d cases three ways in %.1fs" % (len(cases), time.time() - t1))
+    nskipped = sum(1 for r in res if r is None)
+    res = [r for r in res if r is not None]
+    ctx.log("ran %d cases three ways in %.1fs%s" % (len(res), time.time() - t1,
+                                                     " (%d not run: hawk-sed hung %d times)" % (nskipped, MAX_HANGS) if nskipped else ""))
 
     # ---- phase 1: property oracle on the real code ------------------------------------------
     hits = [(i, oracle(r)) for i, r in enumerate(res)]
@@ -961,7 +1175,7 @@ def run(ctx):
         if key in reported:
             continue
         reported.add(key)
-        small = shrink(ctx, hawksed, rr, lambda x: oracle(x) if classify_sig(x) == sig else None)
+        small = shrink(ctx, hawksed, rr, lambda x: oracle(x) if classify_sig(x) == sig else None, cheap="terminate" in why)
         why2 = oracle(small) or why
         ctx.problem("impl", "hawk-sed differs from the reference sed: " + why2 + " | script %r input %r%s" % (
             small["script"][:160], small["case"]["input"][:80], " -n" if small["case"]["n"] else ""),
@@ -988,11 +1202,11 @@ def run(ctx):
 
     # ---- safety half ---------------------------------------------------------------------------
     seeds = [r["script"].encode("utf-8") for r in res if not wfiles_of(r["case"])][:4000]
-    nmut = 2500 if quick else 60000
+    nmut = 2500 if quick else 50000
     t1 = time.time()
     mclasses = safety_half(ctx, hawksed, seeds, nmut)
     ctx.log("safety half: %d mutants in %.1fs: %s" % (nmut, time.time() - t1, mclasses))
-    nmod = modsed_half(ctx, libdir, res[ncorpus + nex:])
+    nmod = modsed_half(ctx, libdir, res[ncorpus + nex:]) + modsed_files(ctx, libdir, res[ncorpus + nex:])
 
     # ---- coverage ------------------------------------------------------------------------------
     opdist, feat = {}, dict(range=0, negated=0, unterminated_input=0, multibyte=0, quiet=0, empty_input=0, empty_regex=0)
